@@ -304,12 +304,15 @@ impl TypeScript {
                             .map_err(|e| io::Error::new(io::ErrorKind::Other, e))?;
                         write!(
                             w,
-                            "\t| {{ {}: {:?}, {}{}: {} }}",
+                            "\t| {{ {}: {:?}, {}{}: {}{} }}",
                             tag_key,
                             shared.id.renamed,
                             content_key,
                             ty.is_optional().then_some("?").unwrap_or_default(),
-                            r#type
+                            r#type,
+                            ty.is_double_optional()
+                                .then_some(" | null")
+                                .unwrap_or_default()
                         )
                     }
                     RustEnumVariant::AnonymousStruct { fields, shared } => {
